@@ -15,6 +15,7 @@ func init() {
 }
 
 func runC06(r *engine.Run) {
+	r.Rule("AGREE-origin", "see C14: the origin tracker is written and read in the same field order: every value the cache stores or hands out is a clone made by Encode + CreateNode, so a writer that swaps origin and version makes a lookup return a node other than the one written (after an odd number of clone steps)")
 	r.Rule("DOM-nomapswap", "whenever a per-key versions map is (re)installed in the state cache's key->versions map, any freshly allocated map among its provenance is allocated only on the not-found edge of the lookup of that key: an existing map (holding other blocks' entries) is never replaced")
 	r.Rule("DOM-tombstone", "every Clone() of a cache entry's data that is handed out is reached only on paths where the same entry's deleted flag tested false (feasible-path enumeration with structural atom equality)")
 	r.Rule("DOM-ownfirst", "TransactionCache.Get and BlockCache.Get delegate to the next layer only on paths where their own map lookup missed; BlockCache.Get continues at its previous block's hash only where the block is known not to be committed, and at its own hash where it is (commit empties the pending map and files the block's writes under its own hash; the marker is a bool field commit sets)")
@@ -61,6 +62,7 @@ func runC06(r *engine.Run) {
 	whoGlobalCache(r, "WHO-globalcache")
 	whoLayers(r)
 	cloneDeep(r)
+	agreeOrigin(r)
 }
 
 // lruCallOnField matches c = (*lru.Cache).<method>(load of <recvType>.<field>, ...).
@@ -637,17 +639,7 @@ func keySame(r *engine.Run) {
 				return
 			}
 			if lruCallOnField(c, "Add", "cache") || lruCallOnField(c, "Get", "cache") {
-				k := through(c.Call.Args[1])
-				ex, isEx := k.(*ssa.Extract)
-				good := false
-				if isEx && ex.Index == 1 {
-					if nx, ok := ex.Tuple.(*ssa.Next); ok {
-						if rg, ok := nx.Iter.(*ssa.Range); ok {
-							fld := fieldLoadOf(rg.X)
-							good = fld != nil && fld.Name() == "cache"
-						}
-					}
-				}
+				good := iteratedPendingKey(through(c.Call.Args[1]), 0)
 				r.CallSites++
 				r.Check(good, rule, fn(f)+"|"+c.Call.StaticCallee().Name()+"-by-iterated-key", r.P.Pos(c.Pos()),
 					"key->versions map addressed by the committed entry's key", "commit addresses the key->versions map with something other than the committed entry's key")
@@ -1437,6 +1429,37 @@ func orderCommitClear(r *engine.Run, rule string) {
 			}
 		}
 	}
+	// one critical section: the block's mutex is not released between the first
+	// read of the pending map and its replacement - a transaction that commits into
+	// the block in between is in neither the published set nor the new map
+	var firstRead ssa.Instruction
+	engine.Instrs(f, func(in ssa.Instruction) {
+		if ld, ok := in.(*ssa.UnOp); ok && ld.Op == token.MUL {
+			if fa, ok := ld.X.(*ssa.FieldAddr); ok && fieldName(fa) == "BlockCache.cache" {
+				if firstRead == nil || engine.InstrDominates(ld, firstRead) {
+					firstRead = ld
+				}
+			}
+		}
+	})
+	gap := ""
+	if firstRead != nil {
+		engine.Instrs(f, func(in ssa.Instruction) {
+			c, ok := in.(*ssa.Call)
+			if !ok {
+				return
+			}
+			if key, op, isLock := engine.LockOp(c); isLock && key == "BlockCache.mu" && (op == "Unlock" || op == "RUnlock") {
+				for _, rs := range resets {
+					if _, isStore := rs.(*ssa.Store); isStore && engine.ReachableAfter(firstRead, c) && engine.ReachableAfter(c, rs) {
+						gap = r.P.Pos(c.Pos())
+					}
+				}
+			}
+		})
+	}
+	r.Check(gap == "", rule, fn(f)+"|one critical section", r.P.Pos(f.Pos()), "the block's mutex is held from the first read of the pending map to its replacement",
+		"commit releases the block's mutex ("+gap+") between reading the pending map and replacing it: a transaction of the block that commits in between is neither published nor kept - its write is lost for good and lookups answer with the ancestor's value")
 	r.Check(bad == "", rule, fn(f)+"|pending map cleared last", r.P.Pos(f.Pos()), "no versions-map Add is reachable after the block's pending map was replaced or an entry deleted from it",
 		"commit replaces the block's pending map or deletes from it ("+bad+") before all its entries are published: if the publishing loop is interrupted (a Clone panics and the caller recovers), the writes are gone from the block's own view while the block is neither linked nor marked committed - its lookups answer with the parent's values, and a repeated Commit publishes only the rest")
 }
@@ -1538,4 +1561,38 @@ func markerFact(f *ssa.Function, b *ssa.BasicBlock, markers map[string]bool) (co
 		}
 	}
 	return false, false
+}
+
+// iteratedPendingKey: k is the key variable of a range over a pending map (field
+// cache), or over a working copy made in the function whose every entry was
+// stored under such a key.
+func iteratedPendingKey(k ssa.Value, depth int) bool {
+	ex, ok := k.(*ssa.Extract)
+	if !ok || ex.Index != 1 || depth > 2 {
+		return false
+	}
+	nx, ok := ex.Tuple.(*ssa.Next)
+	if !ok {
+		return false
+	}
+	rg, ok := nx.Iter.(*ssa.Range)
+	if !ok {
+		return false
+	}
+	if fld := fieldLoadOf(rg.X); fld != nil && fld.Name() == "cache" {
+		return true
+	}
+	if !localMap(rg.X) {
+		return false
+	}
+	n := 0
+	for _, ref := range engine.Referrers(rg.X) {
+		if mu, ok := ref.(*ssa.MapUpdate); ok {
+			n++
+			if !iteratedPendingKey(through(mu.Key), depth+1) {
+				return false
+			}
+		}
+	}
+	return n > 0
 }
